@@ -35,6 +35,8 @@ def _cfg_sock(tier):
                 # until-distances that carry DIFFERENT unit labels: assigned to the public field after construction, or each wind built under another preferred unit
                 out.append({'n': n, 'queries': q, 'labels': ('assigned', ['Meter', 'Yard', 'Foot', 'Kilometer'][:n])})
                 out.append({'n': n, 'queries': q, 'labels': ('preferred', ['Yard', 'Meter', 'Inch', 'Foot'][:n])})
+                # until-distances given as BARE numbers (read in the preferred unit; 0 included: a segment of no extent blows nowhere)
+                out.append({'n': n, 'queries': q, 'labels': ('bare', ['Foot'] * n)})
     return out
 
 
@@ -62,6 +64,10 @@ def c12_sock(ctx, n, queries, calm=None, labels=None, same=None):
         for i, w in enumerate(winds):
             LU = getattr(U, labels[1][i])
             w.until_distance = LU(U.Foot(until[i]) >> LU)
+    elif labels[0] == 'bare':
+        from harness.common import with_preferred
+        with with_preferred(distance=U.Foot):
+            winds = [p.Wind(U.FPS(speed(i)), U.Radian(0.0), until[i]) for i in range(n)]
     else:
         from harness.common import with_preferred
         winds = []
